@@ -828,18 +828,19 @@ class Engine:
         return v
 
     def ex_Name(self, run, node, fr):
-        return self.lookup(run, node.id, fr)
+        return self.lookup(run, node.id, fr, source_read=True)
 
-    def lookup(self, run, name, fr):
+    def lookup(self, run, name, fr, source_read=False):
         f = fr
         while f is not None:
             if name in f.locals:
                 return f.locals[name]
             f = f.closure
-        # a name that the function assigns somewhere is a LOCAL of that function: reading it on a path that has not bound it raises
-        # UnboundLocalError in CPython (it never falls through to globals / builtins)
+        # a name that the function assigns somewhere is a LOCAL of that function: reading it IN THE SOURCE (ex_Name; not the look-ups that loop
+        # specifications make through LoopEnv) on a path that has not bound it raises UnboundLocalError in CPython - it never falls through to
+        # globals / builtins
         node = getattr(getattr(fr, "info", None), "node", None)
-        if node is not None and name in _function_locals(node):
+        if source_read and node is not None and name in _function_locals(node):
             run.oblige(f"local variable `{name}` is assigned on every path before it is read (UnboundLocalError otherwise)", False, kind="implicit",
                        assume_after=False)
             raise SymRaise(SExc("UnboundLocalError", (name,)))
